@@ -92,7 +92,7 @@ type Program struct {
 
 var funcKeywords = map[string]bool{"property": true, "requires": true, "ensures": true, "modifies": true, "loop": true,
 	"invariant": true, "decreases": true, "fnparam": true, "index": true, "visited": true, "opt": true, "lit": true, "note": true, "end": true}
-var topKeywords = map[string]bool{"func": true, "assumed": true, "sumfold": true, "define": true, "declare": true, "axiom": true, "ghost": true}
+var topKeywords = map[string]bool{"func": true, "assumed": true, "sumfold": true, "define": true, "declare": true, "axiom": true, "ghost": true, "function": true}
 
 func LoadProgram(repo string, patterns []string) (*Program, error) {
 	fset := token.NewFileSet()
@@ -301,7 +301,7 @@ func (p *Program) parseLines(pk *packages.Package, file string, raw []rawLine) {
 			fc.File = file
 			cur, root, curLoop, curFn = fc, fc, nil, nil
 			p.Order = append(p.Order, fc)
-		case "sumfold", "define", "declare", "axiom", "ghost":
+		case "sumfold", "define", "declare", "axiom", "ghost", "function":
 			cur = nil
 			p.parseSpecDecl(pk, w, rest, l.pos)
 		default:
